@@ -197,6 +197,17 @@ def cp_als(  # noqa: PLR0912,PLR0913,PLR0915
     for n in range(N):
         UtU[:, :, n] = U[n].T @ U[n]
 
+    if maxiters == 0:
+        # No sweep is executed: report the initial guess itself
+        iteration = 0
+        M = ttb.ktensor(U, init.weights.copy())
+        iprod = input_tensor.innerprod(M)
+        if normX == 0:
+            normresidual = fit = M.norm() ** 2 - 2 * iprod
+        else:
+            normresidual = np.sqrt(np.abs(normX**2 + M.norm() ** 2 - 2 * iprod))
+            fit = 1 - (normresidual / normX)
+
     for iteration in range(maxiters):
         fitold = fit
 
